@@ -262,6 +262,116 @@ fn curved_and_shapes(args: &Args, st: &mut Stats) {
                 st.fail(jobj(&[("what", jstr("shape helper: hit test wrong at the centre / far away")), ("input", jstr(&format!("shape {} at {:?} r=({}, {})", which, c, rx, ry)))]));
             }
         }
+        // star-shaped closed paths made of cubics / quadratics / lines around a centre, in either direction: the
+        // area has the sign of the direction, compute_winding reports it, reversing the path flips both
+        {
+            let k = 3 + r.below(4) as usize;
+            let ccw = r.chance(1, 2);
+            let rad = 5.0 + r.below(20) as f32;
+            let ctr = point(r.range(-20, 20) as f32, r.range(-20, 20) as f32);
+            let at = |ang: f32, rr: f32| ctr + vector(ang.cos(), ang.sin()) * rr;
+            let dir = if ccw { 1.0f32 } else { -1.0 };
+            let step = dir * std::f32::consts::TAU / k as f32;
+            let a0 = r.unit_f64() as f32 * 6.0;
+            let mut b = Path::builder();
+            b.begin(at(a0, rad));
+            let mut kinds = Vec::new();
+            for i in 0..k {
+                let (s, e) = (a0 + step * i as f32, a0 + step * (i + 1) as f32);
+                let rr = |r: &mut Rng| rad * (0.7 + 0.6 * r.unit_f64() as f32);
+                let end = if i + 1 == k { at(a0, rad) } else { at(e, rad) };
+                match r.below(3) {
+                    0 => {
+                        b.cubic_bezier_to(at(s + step / 3.0, rr(r)), at(s + 2.0 * step / 3.0, rr(r)), end);
+                        kinds.push('C');
+                    }
+                    1 => {
+                        b.quadratic_bezier_to(at(s + step / 2.0, rr(r)), end);
+                        kinds.push('Q');
+                    }
+                    _ => {
+                        b.line_to(end);
+                        kinds.push('L');
+                    }
+                }
+            }
+            b.end(true);
+            let p = b.build();
+            let rev: Path = p.reversed().collect();
+            st.inc("evaluations");
+            st.inc("star_shaped_curved_paths");
+            let label = format!("star-shaped {:?} around {:?} radius {} {} :: {:?}", kinds, ctr, rad, if ccw { "ccw" } else { "cw" }, p);
+            st.note_case(&label, true);
+            let res = catch(|| (compute_winding(&mut p.iter()), approximate_signed_area(0.01, p.iter()), compute_winding(&mut rev.iter()), approximate_signed_area(0.01, rev.iter())));
+            match res {
+                None => st.fail(jobj(&[("what", jstr("compute_winding / signed area panicked")), ("input", jstr(&label))])),
+                Some((w, a, rw, ra)) => {
+                    // y grows downwards in lyon's convention: Positive = increasing angle in these coordinates
+                    let want = if ccw { Winding::Positive } else { Winding::Negative };
+                    if (a > 0.0) != ccw || a.abs() < 0.2 * rad * rad {
+                        st.fail(jobj(&[("what", jstr("signed area of a star-shaped curved path has the wrong sign or magnitude")), ("input", jstr(&format!("area {} :: {}", a, label)))]));
+                    }
+                    if w != Some(want) {
+                        st.fail(jobj(&[("what", jstr("compute_winding of a star-shaped curved path is not its direction")), ("input", jstr(&format!("{:?} :: {}", w, label)))]));
+                    }
+                    if rw == w || (ra > 0.0) == (a > 0.0) || (ra + a).abs() > 1e-2 * a.abs() {
+                        st.fail(jobj(&[("what", jstr("reversing a curved path does not flip its winding / negate its area")), ("input", jstr(&format!("{:?}/{} vs {:?}/{} :: {}", w, a, rw, ra, label)))]));
+                    }
+                }
+            }
+        }
+        // crescents: two cubic arcs over the same chord, bulging to the same side by different amounts; thin shapes
+        // whose direction is decided by the curves, not by their end points (own shoelace area on dense samples)
+        {
+            use lyon_path::geom::CubicBezierSegment;
+            let (x0, y0) = (r.range(-20, 20) as f32, r.range(-20, 20) as f32);
+            let wd = 20.0 + r.below(100) as f32;
+            let (h1, mut h2) = (10.0 + r.below(70) as f32, 10.0 + r.below(70) as f32);
+            if (h1 - h2).abs() < 3.0 {
+                h2 = h1 + 6.0;
+            }
+            let up = if r.chance(1, 2) { -1.0f32 } else { 1.0 };
+            let c1 = CubicBezierSegment { from: point(x0, y0), ctrl1: point(x0, y0 + up * h1), ctrl2: point(x0 + wd, y0 + up * h1), to: point(x0 + wd, y0) };
+            let c2 = CubicBezierSegment { from: point(x0 + wd, y0), ctrl1: point(x0 + wd, y0 + up * h2), ctrl2: point(x0, y0 + up * h2), to: point(x0, y0) };
+            let mut b = Path::builder();
+            b.begin(c1.from);
+            b.cubic_bezier_to(c1.ctrl1, c1.ctrl2, c1.to);
+            b.cubic_bezier_to(c2.ctrl1, c2.ctrl2, c2.to);
+            b.end(true);
+            let p = b.build();
+            let rev: Path = p.reversed().collect();
+            let mut pts: Vec<(f64, f64)> = Vec::new();
+            for c in [&c1, &c2] {
+                for i in 0..256 {
+                    let q = c.sample(i as f32 / 256.0);
+                    pts.push((q.x as f64, q.y as f64));
+                }
+            }
+            let mut area2 = 0.0f64;
+            for i in 0..pts.len() {
+                let (a, bq) = (pts[i], pts[(i + 1) % pts.len()]);
+                area2 += a.0 * bq.1 - bq.0 * a.1;
+            }
+            st.inc("evaluations");
+            st.inc("crescents");
+            let label = format!("crescent {:?}", p);
+            st.note_case(&label, true);
+            match catch(|| (compute_winding(&mut p.iter()), approximate_signed_area(0.01, p.iter()), compute_winding(&mut rev.iter()))) {
+                None => st.fail(jobj(&[("what", jstr("compute_winding / signed area panicked")), ("input", jstr(&label))])),
+                Some((w, a, rw)) => {
+                    let want = if area2 > 0.0 { Winding::Positive } else { Winding::Negative };
+                    if (a as f64 - area2 / 2.0).abs() > 0.02 * (area2 / 2.0).abs() + 0.5 {
+                        st.fail(jobj(&[("what", jstr("signed area of a crescent differs from the area of its dense sampling")), ("input", jstr(&format!("{} vs {} :: {}", a, area2 / 2.0, label)))]));
+                    }
+                    if w != Some(want) {
+                        st.fail(jobj(&[("what", jstr("compute_winding of a crescent is not the sign of its area")), ("input", jstr(&format!("{:?}, area {} :: {}", w, area2 / 2.0, label)))]));
+                    }
+                    if rw == w {
+                        st.fail(jobj(&[("what", jstr("reversing a crescent does not flip its winding")), ("input", jstr(&label))]));
+                    }
+                }
+            }
+        }
         // curved path: winding at points away from the outline equals the winding of a fine flattening
         let mut b = Path::builder();
         let g = |r: &mut Rng| point(r.range(-10, 10) as f32, r.range(-10, 10) as f32);
